@@ -361,12 +361,24 @@ func streamMain(args []string) {
 				defer os.Remove(f.Name())
 			}
 		}
-		p, err := subprocess.NewWithEnvironment(context.Background(), rec, env, "START", "SUCCESS", "FAILURE", exe, "child", scriptArg)
-		if err != nil {
-			rep.Fail(hx.Failure{Kind: "harness-error", Key: "subprocess-new", Detail: err.Error()})
-			continue
+		var runErr error
+		if i%3 == 2 {
+			// the one-call entry points
+			if withEnv {
+				runErr = subprocess.ExecuteWithEnvironment(context.Background(), rec, env, "START", "SUCCESS", "FAILURE", exe, "child", scriptArg)
+			} else {
+				runErr = subprocess.Execute(context.Background(), rec, "START", "SUCCESS", "FAILURE", exe, "child", scriptArg)
+			}
+			rep.Hist("B:entry=Execute()")
+		} else {
+			p, err := subprocess.NewWithEnvironment(context.Background(), rec, env, "START", "SUCCESS", "FAILURE", exe, "child", scriptArg)
+			if err != nil {
+				rep.Fail(hx.Failure{Kind: "harness-error", Key: "subprocess-new", Detail: err.Error()})
+				continue
+			}
+			runErr = p.Execute()
+			rep.Hist("B:entry=New+Execute")
 		}
-		runErr := p.Execute()
 		rep.Eval("B "+script, nw >= 2)
 		rep.Hist(fmt.Sprintf("B:exit=%v sig=%v", code != 0, sig != 0))
 		okExpected := code == 0 && sig == 0
